@@ -473,7 +473,7 @@ theorem restart_offline_then_online_resyncs (cfg : Cfg) (evs : List Ev) (hg : (r
   have r3 : run cfg (evs ++ [Ev.lrestart, .offline .a, .step .a .none]) =
       { reopenLeader (run cfg evs) (run cfg evs).image with live := false, chan := .failure, susp := true, parked := true } := by
     rw [e3, run_snoc, run_snoc, run_snoc]
-    simp [next, hg, Ev.who, peerEv, replicaStep, isReady, reopenLeader, hb, St.image]
+    simp [next, hg, Ev.who, peerEv, replicaStep, isReady, reopenLeader, hb, St.image, brokenStream]
   rw [e4, run_snoc]
   apply resync_online
   · rw [r3]; intro x; cases x
@@ -504,6 +504,244 @@ theorem fclose_keeps_ack (cfg : Cfg) (evs : List Ev) (hg : (run cfg evs).gone = 
     (next cfg (run cfg evs) (.fclose .a)).1.L = (run cfg evs).L ∧
     (next cfg (run cfg evs) (.fclose .a)).1.closed = true := by
   simp [next, hg, Ev.who, peerEv]
+
+/-! ### liveness once the faults stop (repaired shape of Replica's else-branch) -/
+
+/-- After ANY history — lost requests, follower restarts, a follower that lost or re-created its log or its
+partition object under the open stream, leader restarts and tail loss, Put faults, offline/online cycles — two
+consecutive fault-free replica calls of a live, non-parked, registered follower with something to send (or a
+channel that is not ready) end IN STEP: ready on a live stream, the next index sent is the follower's next
+index, and the stream's handler holds the follower's current partition. -/
+theorem resync_two_steps_in_step (cfg : Cfg) (hm : cfg.mfail = true) (evs : List Ev)
+    (hg : (run cfg evs).gone = false) (hst : (run cfg evs).stopped = false)
+    (hl : (run cfg evs).live = true) (hs : (run cfg evs).susp = false) (hpk : (run cfg evs).parked = false)
+    (hd : (run cfg evs).cons < (run cfg evs).L.app ∨ (run cfg evs).chan ≠ .ready) :
+    InStep (run cfg (evs ++ [.step .a .none, .step .a .none])) := by
+  have hb := full_run cfg evs
+  have hf := replicaStep_flags cfg (run cfg evs) .none hl hs
+  have e1 : run cfg (evs ++ [.step .a .none, .step .a .none]) =
+      (replicaStep cfg (replicaStep cfg (run cfg evs) .none).1 .none).1 := by
+    have : evs ++ [Ev.step .a .none, Ev.step .a .none] = (evs ++ [Ev.step .a .none]) ++ [Ev.step .a .none] := by simp
+    rw [this, run_snoc, run_snoc, next_step_a cfg _ _ hg hst hpk,
+      next_step_a cfg _ _ (hf.2.2.2.trans hg) (hf.2.2.1.trans hst) (replicaStep_parked cfg (run cfg evs) .none hl hpk hs).1]
+  rw [e1]
+  exact two_steps_in_step cfg hm _ hb.a hb.bndA hst hl hs hd
+
+/-- Catch-up from a channel that is in step (no ghost needed): `k` fault-free steps bring the follower to
+`min (appended + k, leader appended)`, the leader's log is untouched and the channel stays in step. -/
+theorem in_step_catch_up (cfg : Cfg) (evs : List Ev) (k : Nat) (hi : InStep (run cfg evs))
+    (hg : (run cfg evs).gone = false) (hst : (run cfg evs).stopped = false)
+    (hl : (run cfg evs).live = true) (hs : (run cfg evs).susp = false) (hpk : (run cfg evs).parked = false) :
+    InStep (run cfg (evs ++ List.replicate k (.step .a .none))) ∧
+    (run cfg (evs ++ List.replicate k (.step .a .none))).F.app =
+      min ((run cfg evs).F.app + k) (max (run cfg evs).F.app (run cfg evs).L.app) ∧
+    (run cfg (evs ++ List.replicate k (.step .a .none))).L = (run cfg evs).L := by
+  induction k generalizing evs with
+  | zero =>
+    have e0 : evs ++ List.replicate 0 (Ev.step .a .none) = evs := by simp
+    rw [e0]
+    exact ⟨hi, by simp only [Int.natCast_zero, Int.add_zero]; omega, rfl⟩
+  | succ k ih =>
+    have hb := full_run cfg evs
+    have hf := replicaStep_flags cfg (run cfg evs) .none hl hs
+    have hp := replicaStep_none_progress' cfg _ hb.a hst hi.1 hi.2.1 hi.2.2
+    have e1 : run cfg (evs ++ [.step .a .none]) = (replicaStep cfg (run cfg evs) .none).1 := by
+      rw [run_snoc, next_step_a cfg _ _ hg hst hpk]
+    have hfp := replicaStep_parked cfg (run cfg evs) .none hl hpk hs
+    have e2 : evs ++ List.replicate (k + 1) (Ev.step .a .none) = (evs ++ [Ev.step .a .none]) ++ List.replicate k (Ev.step .a .none) := by
+      simp [List.replicate_succ]
+    have := ih (evs ++ [.step .a .none]) (by rw [e1]; exact ⟨hp.1, hp.2.1.2.1, hp.2.1.2.2⟩)
+      (by rw [e1]; exact hf.2.2.2.trans hg) (by rw [e1]; exact hf.2.2.1.trans hst) (by rw [e1]; exact hf.1) (by rw [e1]; exact hf.2.1) (by rw [e1]; exact hfp.1)
+    rw [e2]
+    refine ⟨this.1, ?_, ?_⟩
+    · rw [this.2.1, e1, hp.2.2.2.1, hp.2.2.1]
+      split <;> omega
+    · rw [this.2.2, e1, hp.2.2.1]
+
+/-- The channel resynchronises without operator action and the follower catches up: from ANY reachable
+state of a live, non-parked, registered follower with something to send (or a channel that is not ready),
+after two fault-free replica calls and enough further ones the channel is in step and the follower holds
+every position up to the leader's appended index. -/
+theorem eventually_caught_up (cfg : Cfg) (hm : cfg.mfail = true) (evs : List Ev)
+    (hg : (run cfg evs).gone = false) (hst : (run cfg evs).stopped = false)
+    (hl : (run cfg evs).live = true) (hs : (run cfg evs).susp = false) (hpk : (run cfg evs).parked = false)
+    (hd : (run cfg evs).cons < (run cfg evs).L.app ∨ (run cfg evs).chan ≠ .ready) :
+    ∃ K : Nat, ∀ k, K ≤ k →
+      InStep (run cfg ((evs ++ [.step .a .none, .step .a .none]) ++ List.replicate k (.step .a .none))) ∧
+      (run cfg ((evs ++ [.step .a .none, .step .a .none]) ++ List.replicate k (.step .a .none))).L.app ≤
+        (run cfg ((evs ++ [.step .a .none, .step .a .none]) ++ List.replicate k (.step .a .none))).F.app := by
+  have h2 := resync_two_steps_in_step cfg hm evs hg hst hl hs hpk hd
+  have hf := replicaStep_flags cfg (run cfg evs) .none hl hs
+  have hfp := replicaStep_parked cfg (run cfg evs) .none hl hpk hs
+  have e1 : run cfg (evs ++ [.step .a .none]) = (replicaStep cfg (run cfg evs) .none).1 := by
+    rw [run_snoc, next_step_a cfg _ _ hg hst hpk]
+  have hg1 : (run cfg (evs ++ [.step .a .none])).gone = false := by rw [e1]; exact hf.2.2.2.trans hg
+  have hst1 : (run cfg (evs ++ [.step .a .none])).stopped = false := by rw [e1]; exact hf.2.2.1.trans hst
+  have hl1 : (run cfg (evs ++ [.step .a .none])).live = true := by rw [e1]; exact hf.1
+  have hs1 : (run cfg (evs ++ [.step .a .none])).susp = false := by rw [e1]; exact hf.2.1
+  have hpk1 : (run cfg (evs ++ [.step .a .none])).parked = false := by rw [e1]; exact hfp.1
+  have hf' := replicaStep_flags cfg (run cfg (evs ++ [.step .a .none])) .none hl1 hs1
+  have hfp' := replicaStep_parked cfg (run cfg (evs ++ [.step .a .none])) .none hl1 hpk1 hs1
+  have e2' : evs ++ [Ev.step .a .none, Ev.step .a .none] = (evs ++ [Ev.step .a .none]) ++ [Ev.step .a .none] := by simp
+  have e2 : run cfg (evs ++ [.step .a .none, .step .a .none]) = (replicaStep cfg (run cfg (evs ++ [.step .a .none])) .none).1 := by
+    rw [e2', run_snoc, next_step_a cfg _ _ hg1 hst1 hpk1]
+  refine ⟨((run cfg (evs ++ [.step .a .none, .step .a .none])).L.app - (run cfg (evs ++ [.step .a .none, .step .a .none])).F.app).toNat, fun k hk => ?_⟩
+  have hc := in_step_catch_up cfg (evs ++ [.step .a .none, .step .a .none]) k h2
+    (by rw [e2]; exact hf'.2.2.2.trans hg1) (by rw [e2]; exact hf'.2.2.1.trans hst1) (by rw [e2]; exact hf'.1)
+    (by rw [e2]; exact hf'.2.1) (by rw [e2]; exact hfp'.1)
+  refine ⟨hc.1, ?_⟩
+  rw [hc.2.1, hc.2.2]
+  omega
+
+/-- ... and in histories without leader tail loss the follower ends with exactly the leader's appended index -/
+theorem eventually_caught_up_noloss (cfg : Cfg) (hm : cfg.mfail = true) (evs : List Ev) (hn : NoLoss evs)
+    (hg : (run cfg evs).gone = false) (hst : (run cfg evs).stopped = false)
+    (hl : (run cfg evs).live = true) (hs : (run cfg evs).susp = false) (hpk : (run cfg evs).parked = false)
+    (hd : (run cfg evs).cons < (run cfg evs).L.app ∨ (run cfg evs).chan ≠ .ready) :
+    ∃ K : Nat, ∀ k, K ≤ k →
+      Synced (run cfg ((evs ++ [.step .a .none, .step .a .none]) ++ List.replicate k (.step .a .none))) ∧
+      (run cfg ((evs ++ [.step .a .none, .step .a .none]) ++ List.replicate k (.step .a .none))).F.app =
+        (run cfg ((evs ++ [.step .a .none, .step .a .none]) ++ List.replicate k (.step .a .none))).L.app := by
+  obtain ⟨K, hK⟩ := eventually_caught_up cfg hm evs hg hst hl hs hpk hd
+  refine ⟨K, fun k hk => ?_⟩
+  have h1 := hK k hk
+  have hn' : NoLoss ((evs ++ [.step .a .none, .step .a .none]) ++ List.replicate k (.step .a .none)) := by
+    intro e he j hj
+    subst hj
+    simp only [List.mem_append, List.mem_cons, List.mem_replicate, List.not_mem_nil, or_false] at he
+    rcases he with (he | he | he) | he
+    · exact hn _ he j rfl
+    · cases he
+    · cases he
+    · cases he.2
+  have := (nlf_run cfg _ hn').a.f_app
+  exact ⟨h1.1.1, by omega⟩
+
+/-- The follower's partition object closed and re-created under the leader's open, error-free stream (follower
+WAL GC / Close): IsReady closes the stream on EVERY failure, so the handshake after the refusal is followed by a
+new stream whose handler resolves the current partition; the follower catches up. (If the stream were kept
+when a message is merely refused: `Neg.kept_stream_stays_closed`.) -/
+theorem fclose_then_steps_resyncs (cfg : Cfg) (hm : cfg.mfail = true) (evs : List Ev) (m : Msg) (hm0 : m ≠ [])
+    (hg : (run cfg evs).gone = false) (hst : (run cfg evs).stopped = false)
+    (hl : (run cfg evs).live = true) (hs : (run cfg evs).susp = false) (hpk : (run cfg evs).parked = false)
+    (hc : (run cfg evs).cons ≤ (run cfg evs).L.app) :
+    ∃ K : Nat, ∀ k, K ≤ k →
+      InStep (run cfg (((evs ++ [.fclose .a, .append m]) ++ [.step .a .none, .step .a .none]) ++ List.replicate k (.step .a .none))) ∧
+      (run cfg (((evs ++ [.fclose .a, .append m]) ++ [.step .a .none, .step .a .none]) ++ List.replicate k (.step .a .none))).L.app ≤
+        (run cfg (((evs ++ [.fclose .a, .append m]) ++ [.step .a .none, .step .a .none]) ++ List.replicate k (.step .a .none))).F.app := by
+  have e : run cfg (evs ++ [.fclose .a, .append m]) =
+      { (run cfg evs) with F := Log.empty, closed := true, dz := true, L := (run cfg evs).L.put m } := by
+    have : evs ++ [Ev.fclose .a, Ev.append m] = (evs ++ [Ev.fclose .a]) ++ [Ev.append m] := by simp
+    rw [this, run_snoc, run_snoc]
+    simp [next, hg, Ev.who, peerEv, hm0]
+  refine eventually_caught_up cfg hm _ ?_ ?_ ?_ ?_ ?_ ?_
+  · rw [e]; exact hg
+  · rw [e]; exact hst
+  · rw [e]; exact hl
+  · rw [e]; exact hs
+  · rw [e]; exact hpk
+  · rw [e]; left
+    show (run cfg evs).cons < ((run cfg evs).L.put m).app
+    simp only [Log.put]; omega
+
+/-- A complete offline → online cycle of the follower as the leader's state manager sees it (the pooled
+connection is closed and removed, every stream on it dies): the next handshake creates a NEW client stub —
+`Conn.fresh_stub_alive` — on a newly dialled connection, and the follower catches up. (With a stub created
+once and reused: `Neg.cached_stub_dead_after_offline`.) -/
+theorem offline_online_then_steps_resyncs (cfg : Cfg) (hm : cfg.mfail = true) (evs : List Ev) (m : Msg) (hm0 : m ≠ [])
+    (hg : (run cfg evs).gone = false) (hst : (run cfg evs).stopped = false)
+    (hs : (run cfg evs).susp = false) (hpk : (run cfg evs).parked = false)
+    (hc : (run cfg evs).cons ≤ (run cfg evs).L.app) :
+    ∃ K : Nat, ∀ k, K ≤ k →
+      InStep (run cfg (((evs ++ [.offline .a, .online .a .none, .append m]) ++ [.step .a .none, .step .a .none]) ++ List.replicate k (.step .a .none))) ∧
+      (run cfg (((evs ++ [.offline .a, .online .a .none, .append m]) ++ [.step .a .none, .step .a .none]) ++ List.replicate k (.step .a .none))).L.app ≤
+        (run cfg (((evs ++ [.offline .a, .online .a .none, .append m]) ++ [.step .a .none, .step .a .none]) ++ List.replicate k (.step .a .none))).F.app := by
+  have e : run cfg (evs ++ [.offline .a, .online .a .none, .append m]) =
+      { (run cfg evs) with live := true, stream := brokenStream (run cfg evs).stream, L := (run cfg evs).L.put m } := by
+    have : evs ++ [Ev.offline .a, Ev.online .a .none, Ev.append m] = ((evs ++ [Ev.offline .a]) ++ [Ev.online .a .none]) ++ [Ev.append m] := by simp
+    rw [this, run_snoc, run_snoc, run_snoc]
+    simp [next, hg, Ev.who, peerEv, onlineEv, hst, hs, hm0]
+  refine eventually_caught_up cfg hm _ ?_ ?_ ?_ ?_ ?_ ?_
+  · rw [e]; exact hg
+  · rw [e]; exact hst
+  · rw [e]
+  · rw [e]; exact hs
+  · rw [e]; exact hpk
+  · rw [e]; left
+    show (run cfg evs).cons < ((run cfg evs).L.put m).app
+    simp only [Log.put]; omega
+
+/-- The expiry check stopped the follower's drained group and replicator while another group kept the
+partition alive; a later write stream calls BuildReplicaForLeader: buildReplica's "already built" test reads
+`p.replicators` — the map stopReplicator cleans (`Maps`, `Tie.buildReplica_exists_map`) — so the group is
+registered again and a new replicator exists (state `init`, no stream, not parked), and the follower receives
+what is written afterwards. -/
+theorem join_after_expire_rebuilds (cfg : Cfg) (hm : cfg.mfail = true) (evs : List Ev)
+    (hg : (run cfg evs).gone = false) (hstp : (run cfg evs).stopped = true) (hl : (run cfg evs).live = true) :
+    (run cfg (evs ++ [.join .a])).stopped = false ∧ (run cfg (evs ++ [.join .a])).born = true ∧
+    (run cfg (evs ++ [.join .a])).chan = .init ∧
+    ∃ K : Nat, ∀ k, K ≤ k →
+      InStep (run cfg (((evs ++ [.join .a]) ++ [.step .a .none, .step .a .none]) ++ List.replicate k (.step .a .none))) ∧
+      (run cfg (((evs ++ [.join .a]) ++ [.step .a .none, .step .a .none]) ++ List.replicate k (.step .a .none))).L.app ≤
+        (run cfg (((evs ++ [.join .a]) ++ [.step .a .none, .step .a .none]) ++ List.replicate k (.step .a .none))).F.app := by
+  have e : (run cfg (evs ++ [.join .a])).stopped = false ∧ (run cfg (evs ++ [.join .a])).born = true ∧
+      (run cfg (evs ++ [.join .a])).chan = .init ∧ (run cfg (evs ++ [.join .a])).gone = false ∧
+      (run cfg (evs ++ [.join .a])).live = true ∧ (run cfg (evs ++ [.join .a])).susp = false ∧
+      (run cfg (evs ++ [.join .a])).parked = false := by
+    rw [run_snoc]
+    simp only [next, hg, Ev.who, peerEv, hstp, Bool.false_eq_true, if_false, Bool.true_eq_false]
+    split <;> (refine ⟨rfl, ?_, rfl, rfl, hl, rfl, rfl⟩; first | rfl | assumption)
+  refine ⟨e.1, e.2.1, e.2.2.1, ?_⟩
+  exact eventually_caught_up cfg hm _ e.2.2.2.1 e.1 e.2.2.2.2.1 e.2.2.2.2.2.1 e.2.2.2.2.2.2
+    (Or.inr (by rw [e.2.2.1]; intro x; cases x))
+
+/-! ### the two side models -/
+
+/-- buildReplica publishes both maps, stopReplicator cleans `p.replicators` only: a follower in
+`p.replicators` is always in `p.replicatorStatistics` (whichever map the test reads) -/
+theorem maps_repl_imp_stats (t : Maps.Sel) (ops : List Maps.Op) :
+    (Maps.run t ops).repl = true → (Maps.run t ops).stats = true := by
+  unfold Maps.run
+  suffices h : ∀ m : Maps.M, (m.repl = true → m.stats = true) →
+      ((ops.foldl (Maps.step t) m).repl = true → (ops.foldl (Maps.step t) m).stats = true) from h _ (by intro x; cases x)
+  induction ops with
+  | nil => intro m hm; exact hm
+  | cons o ops ih =>
+    intro m hm
+    apply ih
+    cases o with
+    | build =>
+      simp only [Maps.step, Maps.build]
+      split
+      · exact hm
+      · intro _; rfl
+    | stop =>
+      simp only [Maps.step, Maps.stop]
+      split
+      · intro x; cases x
+      · exact hm
+
+/-- test on `p.replicators` (the tree as it is): after ANY sequence of builds and stops, a build leaves the
+follower with a replicator — in particular after stop + build -/
+theorem maps_build_gives_replicator (ops : List Maps.Op) :
+    (Maps.run .repl (ops ++ [.build])).repl = true := by
+  unfold Maps.run
+  rw [List.foldl_append]
+  simp only [List.foldl, Maps.step]
+  generalize List.foldl (Maps.step .repl) _ ops = m
+  cases m with
+  | mk r s => cases r <;> rfl
+
+/-- per handshake (the tree as it is): whatever the pool went through, the stub the handshake creates is bound
+to the open pooled connection — its calls go through -/
+theorem conn_fresh_stub_alive (c : Conn.C) : Conn.stubAlive (Conn.handshakeClient true c) = true := by
+  unfold Conn.handshakeClient Conn.getConn Conn.stubAlive
+  cases hp : c.pool <;> simp [hp]
+
+theorem conn_handshake_ok_after_any_history (ops : List Conn.Op) :
+    (Conn.step true (Conn.run true ops) .handshake).2 = true := by
+  simp only [Conn.step]
+  exact conn_fresh_stub_alive _
 
 /-! ## 5. ties to the regenerated facts (replica/*.go, app/storage/rpc/replica.go, pkg/queue/*.go) -/
 
@@ -717,6 +955,20 @@ theorem replica_conds : C08.replicaConds =
   simp only [C08.replicaConds, C08.respErrChecked]; rfl
 theorem partitionReplica_conds : C08.partitionReplicaConds =
     ["replicator.IsReady() && replicator.Connect()", "seq >= 0", "err != nil"] := rfl
+/-- buildReplica's "already built" test reads `p.replicators` — the map stopReplicator cleans; it publishes
+both maps, statistics first; stopReplicator tests and publishes `p.replicators` only (side model `Maps`; the
+main model's `join` guard `s.stopped` is this test) -/
+theorem buildReplica_exists_map : C08.buildReplicaExistsMaps = ["p.replicators"] := rfl
+theorem buildReplica_publishes : C08.buildReplicaPublishes = ["p.replicatorStatistics", "p.replicators"] := rfl
+theorem stopReplicator_maps :
+    C08.stopReplicatorExistsMaps = ["p.replicators"] ∧ C08.stopReplicatorPublishes = ["p.replicators"] := ⟨rfl, rfl⟩
+theorem maps_build_eq (m : Maps.M) :
+    Maps.build .repl m = (if m.repl then m else { repl := true, stats := true }) := rfl
+/-- the replica service client is created inside IsReady, unconditionally, i.e. by every handshake (side model
+`Conn` with `perHandshake = true`); the stream is dropped unconditionally by IsReady's handshake and by Close -/
+theorem create_client_sites : C08.createClientSites = ["IsReady"] := rfl
+theorem close_stream_sites : C08.closeStreamSites = ["IsReady", "Close"] := rfl
+theorem close_stream_conds : C08.closeStreamConds = ["r.replicaStream != nil", "err != nil"] := rfl
 /-- the closed branch is modelled for the shape that checks `resp.Err` (fix 5d9ed1f): without the check the
 closed partition's don't-care answer 0 would acknowledge replica index 0 -/
 theorem resp_err_checked : C08.respErrChecked = true := rfl
@@ -805,6 +1057,25 @@ example : (run { fixed := true, mfail := true, wake := true }
     (run { fixed := true, mfail := true, wake := true }
       [.append [1], .offline .a, .step .a .none, .append [2], .lrestart, .step .a .none, .online .a .none, .step .a .none]).gack = 1 := by
   decide
+
+/-- `fclose_then_steps_resyncs`, `offline_online_then_steps_resyncs`, `join_after_expire_rebuilds` on concrete histories
+(HEAD configuration): the follower ends with the leader's appended index, in step -/
+example : (run { fixed := true, mfail := true, wake := true }
+      [.append [1], .step .a .none, .fclose .a, .append [2], .step .a .none, .step .a .none, .step .a .none]).F.app = 1 ∧
+    Synced (run { fixed := true, mfail := true, wake := true }
+      [.append [1], .step .a .none, .fclose .a, .append [2], .step .a .none, .step .a .none, .step .a .none]) := by decide
+example : (run { fixed := true, mfail := true, wake := true }
+      [.append [1], .step .a .none, .offline .a, .online .a .none, .append [2], .step .a .none, .step .a .none]).F.app = 1 ∧
+    (run { fixed := true, mfail := true, wake := true }
+      [.append [1], .step .a .none, .offline .a]).stream = .broken ∧
+    Synced (run { fixed := true, mfail := true, wake := true }
+      [.append [1], .step .a .none, .offline .a, .online .a .none, .append [2], .step .a .none, .step .a .none]) := by decide
+example : (run { fixed := true, mfail := true, wake := true }
+      [.join .b, .append [1], .step .a .none, .expire]).stopped = true ∧
+    (run { fixed := true, mfail := true, wake := true }
+      [.join .b, .append [1], .step .a .none, .expire]).gone = false ∧
+    (run { fixed := true, mfail := true, wake := true }
+      [.join .b, .append [1], .step .a .none, .expire, .join .a, .append [2], .step .a .none, .step .a .none]).F.app = 1 := by decide
 
 /-! ## 7. where the code violates the property -/
 
@@ -975,6 +1246,49 @@ which equals the sent replica index exactly for the first message of a log -/
 theorem closed_answer_collides_at_zero (F : Log) (idx : Int) :
     ((F, (0 : Int)).2 = idx) ↔ idx = 0 := by
   constructor <;> intro h <;> simp_all
+
+/-- Why IsReady must drop the stream on EVERY failure, not only after a Send/Recv error: `Connect` on a kept
+stream does not re-bind the follower's handler — it keeps the closed partition, and by `closed_never_acks`
+every send is refused again, for ever -/
+theorem kept_stream_stays_closed (s : St) (f : Fault) (hcl : s.closed = true) (hu : s.stream ≠ .none) :
+    (connect s f).2 = true ∧ (connect s f).1.closed = true ∧ (connect s f).1.stream = s.stream := by
+  unfold connect
+  rw [if_pos hu]
+  exact ⟨rfl, hcl, rfl⟩
+
+/-- Why buildReplica's "already built" test must read `p.replicators`: with the test on
+`p.replicatorStatistics` (never cleaned by stopReplicator) a follower stopped by the expiry check is never
+rebuilt, however often BuildReplicaForLeader is called -/
+theorem stale_statistics_blocks_rebuild (k : Nat) :
+    (Maps.run .stats ([.build, .stop] ++ List.replicate k .build)).repl = false := by
+  unfold Maps.run
+  rw [List.foldl_append]
+  have h0 : List.foldl (Maps.step .stats) { repl := false, stats := false } [.build, .stop] = { repl := false, stats := true } := by
+    decide
+  rw [h0]
+  induction k with
+  | zero => rfl
+  | succ k ih =>
+    rw [List.replicate_succ, List.foldl_cons]
+    exact ih
+
+/-- Why the client stub must be created by every handshake: a stub created once and reused is bound to the
+connection of that time; after `onNodeFailure` closed and removed it, every later handshake fails, for ever -/
+theorem cached_stub_dead_after_offline (k : Nat) :
+    (Conn.step false (Conn.run false ([.handshake, .offline] ++ List.replicate k .handshake)) .handshake).2 = false := by
+  have h : Conn.run false ([.handshake, .offline] ++ List.replicate k .handshake) = { pool := none, next := 1, stub := some 0 } := by
+    unfold Conn.run
+    rw [List.foldl_append]
+    have h0 : List.foldl (fun c o => (Conn.step false c o).1) Conn.C.init [.handshake, .offline] = { pool := none, next := 1, stub := some 0 } := by
+      decide
+    rw [h0]
+    induction k with
+    | zero => rfl
+    | succ k ih =>
+      rw [List.replicate_succ, List.foldl_cons]
+      exact ih
+  rw [h]
+  decide
 
 end Neg
 
